@@ -90,6 +90,20 @@ def chain_def(n, sigma, loop_back):
                 final_states={n - 1}, allow_partial=True)
 
 
+def nfa_to_dfa_def(n):
+    """A deterministic lasso NFA definition as a partial DFA definition (None if not deterministic)."""
+    trans = {}
+    for q, row in n["transitions"].items():
+        r = {}
+        for a, ts in row.items():
+            if len(ts) != 1:
+                return None
+            r[a] = next(iter(ts))
+        trans[q] = r
+    return dict(states=set(n["states"]), input_symbols=set(n["input_symbols"]), transitions=trans,
+                initial_state=n["initial_state"], final_states=set(n["final_states"]), allow_partial=True)
+
+
 def run(ctx):
     ctx.rule = RULE
     rng = ctx.rng
@@ -112,6 +126,12 @@ def run(ctx):
         if rng.random() < 0.5:
             check_pair(ctx, bdef, adef, tag + "_swapped")
         check_single(ctx, adef)
+        if i % 3 == 0:
+            for _ in range(3):
+                x, y, tag = gen.lasso_pair(rng, rng.choice(["a", "a", "ab"]))
+                dx, dy = nfa_to_dfa_def(x), nfa_to_dfa_def(y)
+                if dx and dy:
+                    check_pair(ctx, dx, dy, tag)
     # operands over different alphabets are refused
     a = mk_dfa(gen.rand_dfa_def(rng, alphabet="ab"))
     b = mk_dfa(gen.rand_dfa_def(rng, alphabet="a"))
